@@ -263,7 +263,7 @@ pub fn scenario(id: &str, ctx: &Ctx, bin: &str, rng: &mut Rng, screen: &mut Scre
             }
         }
         "C14" => {
-            let case = rng.below(4);
+            let case = rng.below(5);
             let seed = rng.next();
             let name_idx = rng.next() as usize;
             if let Some((clause, detail)) = config_case(ctx, bin, case, name_idx, seed, &mut r) {
@@ -392,6 +392,31 @@ fn walk_case(id: &str, bin: &str, world: &World, seed: u64, r: &mut ScnResult) -
     }
     match id {
         "C03" => {
+            // cross-engine agreement: the in-process engine (driver mirroring main()) must produce the
+            // same bytes as the real binary for the same tree and arguments
+            let mut w2 = world.clone();
+            w2.cwd = "/w".to_string();
+            let spec = crate::run::RunSpec {
+                world: w2.clone(),
+                schedule: Default::default(),
+                mode: crate::run::Mode::Proc { argv: argv.clone() },
+                render: true,
+            };
+            let out = crate::run::run(&spec);
+            r.count("cross_engine_comparisons", 1);
+            if out.abort.is_none() {
+                let inproc = out.report_bytes(&w2).unwrap_or_default();
+                if inproc != text.as_bytes() {
+                    let at = inproc.iter().zip(text.as_bytes().iter()).position(|(a, b)| a != b).unwrap_or(inproc.len().min(text.len()));
+                    return Some((
+                        "binary_and_in_process_reports_differ".into(),
+                        format!(
+                            "real binary (SOLSTAT_VERIF_SEED={}) and the in-process engine disagree on the report of the same tree: {} vs {} bytes, first difference at byte {} (main.rs or a file-system call outside the seam behaves differently from the library path)",
+                            seed, text.len(), inproc.len(), at
+                        ),
+                    ));
+                }
+            }
             let (got, _) = triples_of_report(&text, &t);
             let want = report::triples(&expected);
             if got != want {
@@ -602,7 +627,60 @@ fn config_case(ctx: &Ctx, bin: &str, case: usize, name_idx: usize, seed: u64, r:
     r.evaluations += 1;
     r.steps += 1;
     r.count("binary_runs", 1);
-    match case % 4 {
+    match case % 5 {
+        4 => {
+            // a random selection across all three categories: the real binary and the in-process
+            // engine must agree byte for byte (this is what sees main.rs hand a wrong list to a walker)
+            let mut rng = Rng::new(seed ^ name_idx as u64);
+            let mut lists: Vec<Vec<String>> = vec![];
+            for c in [Cat::Opt, Cat::Vul, Cat::Qa] {
+                let names: Vec<String> = ctx.doc.of(c).iter().filter(|n| by_name(c, n).is_ok()).cloned().collect();
+                let mut v = match rng.below(3) {
+                    0 => names.clone(),
+                    1 => rng.subset(&names, 1, 2),
+                    _ => rng.subset(&names, 1, 6),
+                };
+                rng.shuffle(&mut v);
+                lists.push(v);
+            }
+            world.put_file(
+                "/w/cfg.toml",
+                crate::c18::toml_text("/w/t", &lists[0], &lists[1], &lists[2]).into_bytes(),
+                Fault::None,
+            );
+            let argv: Vec<String> = vec!["solstat".into(), "--toml".into(), "/w/cfg.toml".into()];
+            let s = Scratch::new();
+            materialise(&world, &s);
+            let run = run_bin(bin, &s, "/w", &argv, seed);
+            r.fault("cfg_random_selection_cross_engine", 1);
+            r.nontrivial.push(hash_str(115, &format!("{:?}", lists)));
+            let spec = crate::run::RunSpec {
+                world: world.clone(),
+                schedule: Default::default(),
+                mode: crate::run::Mode::Proc { argv: argv.clone() },
+                render: true,
+            };
+            let out = crate::run::run(&spec);
+            r.count("cross_engine_comparisons", 1);
+            if run.status != out.status() {
+                return Some((
+                    "binary_and_in_process_status_differ".into(),
+                    format!("configuration {:?}: the real binary exits with {}, the in-process engine with {}", lists, run.status, out.status()),
+                ));
+            }
+            if run.status == 0 {
+                let a = read_report(&s, "/w").unwrap_or_default();
+                let b = out.report_bytes(&world).unwrap_or_default();
+                r.mixin(hash_str(116, &String::from_utf8_lossy(&a)));
+                if a != b {
+                    return Some((
+                        "binary_and_in_process_reports_differ".into(),
+                        format!("configuration {:?}: the real binary's report ({} bytes) differs from the in-process engine's ({} bytes): main.rs does not analyse exactly the configured patterns the way the library path does", lists, a.len(), b.len()),
+                    ));
+                }
+            }
+            None
+        }
         0 | 1 => {
             // a single documented name in some casing, directory from the toml's path
             if all.is_empty() {
